@@ -8,6 +8,13 @@
 // The rate is low (<= 1/s) and the observation window short, so exactly `capacity` callers may be
 // released inside the window; the others are still polling when it closes and are then let go by
 // VerifGrantAll (nothing is measured after that).
+//
+// Rounds with the suffix x (w<k>x, f<k>x): while the callers of the round are blocked in Wait (empty
+// bucket; in an f round the late caller, held by the penalty) the context handed to NewBucketManager
+// is cancelled - what archiver.Stop does to the archiver's manager.  Wait returns a duration, not an
+// error, so a return IS a release: the same window bound / penalty predicates must hold, in that
+// round and in all later rounds of the case (which then run on a cancelled manager).  Model:
+// Rate/Cancel.v, event ECancel.
 package main
 
 import (
@@ -30,6 +37,7 @@ func init() {
 		Footer:   "\nDefinition DIFF := Eval vm_compute in mdiffs cases.\nPrint DIFF.\nDefinition MON := Eval vm_compute in mmons cases.\nPrint MON.\n",
 		Rule: "one case = (capacity 1-3, rate 0.01-1/s, observation window, 3-6 rounds); a round = k (3-8) goroutines leaving a spin barrier together and " +
 			"calling Wait for a host that has no bucket yet (w<k>), or k-1 Wait + one AdjustOnFailure(429) followed by one later Wait (f<k>); " +
+			"suffix x = the manager's context is cancelled halfway through the round's (last) observation window, with callers blocked in Wait; " +
 			"distinct by input text; non-trivial when in some round a caller was released and another was still blocked at the end of the window",
 		Gen:    genMgrConc,
 		Exec:   func(in string) Result { return cachedExec("mgrconc", 3, execMgrConc, in) },
@@ -50,6 +58,11 @@ func genMgrConc(r *Rng, i int, tier string) string {
 		} else {
 			ops = append(ops, fmt.Sprintf("w%d", k))
 		}
+	}
+	if r.Intn(2) == 0 {
+		// the manager's context is cancelled during one of the rounds (not always the last one: the
+		// rounds after it run on a cancelled manager)
+		ops[r.Intn(len(ops))] += "x"
 	}
 	in := fmt.Sprintf("cap=%s rate=%s win=%d ops=%s", fbits(capv), fbits(rate), win, strings.Join(ops, ";"))
 	rememberInput("mgrconc", in)
@@ -74,16 +87,28 @@ func execMgrConc(in string) Result {
 	since := func() int64 { return int64(time.Since(start)) }
 
 	var evs []string
-	sawRelease, sawBlocked, fmode, stragglers := false, false, false, false
+	sawRelease, sawBlocked, fmode, stragglers, cancelled := false, false, false, false, false
 	for round, op := range strings.Split(kv["ops"], ";") {
 		if len(op) < 2 {
 			continue
 		}
-		k, _ := strconv.Atoi(op[1:])
+		withCancel := strings.HasSuffix(op, "x")
+		k, _ := strconv.Atoi(strings.TrimSuffix(op[1:], "x"))
 		if k < 1 {
 			continue
 		}
 		withFail := op[0] == 'f'
+		// watch: the observation window; with cancelNow the context is cancelled in the middle of it
+		watch := func(cancelNow bool) {
+			if cancelNow {
+				time.Sleep(window / 2)
+				cancel()
+				cancelled = true
+				time.Sleep(window - window/2)
+			} else {
+				time.Sleep(window)
+			}
+		}
 		host := fmt.Sprintf("c%d", round)
 		slots := make([]relSlot, k+1)
 		var ready, finished sync.WaitGroup
@@ -113,7 +138,7 @@ func execMgrConc(in string) Result {
 		}
 		ready.Wait()
 		goFlag.Store(true)
-		time.Sleep(window)
+		watch(withCancel && !withFail)
 		lateStarted := false
 		if withFail && failDone.Load() {
 			// a call that starts after the failure has been reported
@@ -127,7 +152,10 @@ func execMgrConc(in string) Result {
 				slots[k].t0.Store(t0)
 				slots[k].t1.Store(since())
 			}()
-			time.Sleep(window)
+			watch(withCancel)
+		} else if withFail && withCancel {
+			cancel()
+			cancelled = true
 		}
 		closeAt := since()
 		ratelimiter.VerifGrantAll(bm, host)
@@ -179,8 +207,14 @@ func execMgrConc(in string) Result {
 		}
 		evs = append(evs, fmt.Sprintf("EC %s %s %s %s %d %s", coqStr(host), coqIvs(relA), thr, coqIvs(relB), ngets,
 			coqSnap(snap)))
+		if withCancel {
+			evs = append(evs, fmt.Sprintf("EX %s", coqSnap(snap)))
+		}
 	}
 	tags := []string{"fresh-host-burst"}
+	if cancelled {
+		tags = append(tags, "context-cancelled-with-callers-in-Wait")
+	}
 	if fmode {
 		tags = append(tags, "fresh-host-burst+429")
 	}
